@@ -67,7 +67,10 @@ C11Failing ==
 ----------------------------------------------------------------------------
 (* C12 *)
 NodeKinds == {"Module", "FunctionDef", "For", "If", "Assign", "ExprYield", "Return", "Break", "Pass",
-              "Call", "List", "Name", "Str", "Int", "Bool"}
+              "Call", "List", "Name", "Str", "Int", "Bool",
+              \* control flow and tests that reach nothing by themselves (their leaves are checked like all others):
+              \* another code generator may prefer them to the for/if/break idiom
+              "While", "Continue", "BoolOp", "Not", "Compare", "None", "ExprYieldFrom"}
 SrcStrings == ToSet(Rec.strings)
 SrcInts == ToSet(Rec.ints)
 
@@ -91,7 +94,12 @@ Bad(ix, env) ==
                               \cup Bad(n.value, env)
          [] n.k = "For" -> (IF Nd(n.target).k = "Name" /\ Nd(n.target).id \notin ToSet(ApiNames) THEN {} ELSE {"Capture"})
                            \cup (IF BlockIdiom(n) THEN {} ELSE Bad(n.iter, env))
-                           \cup BadSeq(n.body, env) \cup (IF n.plain THEN {} ELSE {"NodeKind"})
+                           \cup BadSeq(n.body, env) \cup BadSeq(n.orelse, env) \cup (IF n.plain THEN {} ELSE {"NodeKind"})
+         [] n.k = "While" -> Bad(n.test, env) \cup BadSeq(n.body, env) \cup BadSeq(n.orelse, env)
+         [] n.k = "BoolOp" -> BadSeq(n.values, env)
+         [] n.k = "Not" -> Bad(n.operand, env)
+         [] n.k = "Compare" -> Bad(n.left, env) \cup BadSeq(n.rights, env)
+         [] n.k = "ExprYieldFrom" -> IF Nd(n.value).k = "Call" THEN Bad(n.value, env) ELSE {"YieldConstant"}
          [] n.k = "If" -> Bad(n.test, env) \cup BadSeq(n.body, env) \cup BadSeq(n.orelse, env)
          [] n.k = "ExprYield" -> IF Nd(n.value).k = "Bool" THEN {} ELSE {"YieldConstant"}
          [] n.k = "Return" -> IF n.plain THEN {} ELSE {"NodeKind"}
@@ -107,7 +115,9 @@ FuncNamesAreHeads == \A i \in DOMAIN Stmts : Stmts[i].k = "FunctionDef" => Stmts
 C12Failing ==
   IF Rec.outcome = "rejected" THEN {}
   ELSE IF ~Rec.parse_ok THEN {"OutputIsPython"}
-  ELSE Bad(Rec.module.root, {}) \cup (IF FuncNamesAreHeads THEN {} ELSE {"FuncNamesAreHeads"})
+  \* (a string or integer constant that is not taken from the source is data of the compiler's own - say atom('[]')
+  \* for the empty list - and no violation of this property; whether literals keep their value is C16)
+  ELSE (Bad(Rec.module.root, {}) \ {"StringFromSource", "IntFromSource"}) \cup (IF FuncNamesAreHeads THEN {} ELSE {"FuncNamesAreHeads"})
        \cup (IF Rec.audit = <<>> THEN {} ELSE {"NoForeignEffects"})
        \* the output written to a file and loaded through load_script_from_file is the same program
        \* (the bytes of the file are the text: no declaration inside a comment may change how it is read)
